@@ -232,7 +232,7 @@ def mc_pattern(tier, wd, workers):
     pp, dp = os.path.join(wd, "mc-pats.ndjson"), os.path.join(wd, "mc-pdocs.ndjson")
     vlib.write_ndjson(pp, [{"text": xpgen.render(p_), "pat": xpgen.strip_render_only(p_)} for p_ in pats])
     vlib.write_ndjson(dp, [xdm.flatten(t, c02.ID_ATTRS) for t in docs])
-    r = vlib.tlc_mc(MC, name="patmc", env={"DOCS": dp, "PATS": pp}, workers=workers, timeout=3000)
+    r = vlib.tlc_mc(MC, name="patmc", env={"DOCS": dp, "PATS": pp}, workers=workers, timeout=3000, extra=["-noGenerateSpecTE"])
     return r, "MC_Pattern (PatternMatcherImpl vs XPathSem!MatchSet: %d patterns x %d documents, every node; known deviations named and shown real)" % (len(pats), len(docs))
 
 
